@@ -569,6 +569,58 @@ def run_e2e(req):
 HANDLERS["knn_e2e"] = run_e2e
 
 
+def run_refit(req):
+    from opfython.models.knn_supervised import KNNSupervisedOPF
+    from opfython.models.unsupervised import UnsupervisedOPF
+    from opfython.models.supervised import SupervisedOPF
+    cfg = req["cfg"]
+    model, n1, n2, labels = cfg["model"], cfg["n1"], cfg["n2"], cfg["labels"]
+    D = [list(map(float, r)) for r in req["D"]]
+    table = lambda a, b: D[int(a[0])][int(b[0])]
+
+    def mk():
+        if model == "uns":
+            o = UnsupervisedOPF(min_k=1, max_k=cfg["max_k"])
+        elif model == "knn":
+            o = KNNSupervisedOPF(max_k=cfg["max_k"])
+        else:
+            o = SupervisedOPF()
+        o.distance_fn = table
+        return o
+
+    def fit(o, rows):
+        X = np.array([[float(i)] for i in rows])
+        Y = np.array([labels[i] for i in rows], dtype=int)
+        if model == "knn":
+            o.fit(X, Y, X, Y)
+        else:
+            o.fit(X, Y)
+
+    def state(o):
+        g = o.subgraph
+        s = dict(cost=[float(nd.cost) for nd in g.nodes], pred=[int(nd.pred) for nd in g.nodes],
+                 plab=[int(nd.predicted_label) for nd in g.nodes], status=[int(nd.status) for nd in g.nodes],
+                 order=[int(x) for x in list(g.idx_nodes)[-g.n_nodes:]], n=int(g.n_nodes))
+        if model != "sup":
+            s.update(clus=[int(nd.cluster_label) for nd in g.nodes], root=[int(nd.root) for nd in g.nodes],
+                     dens=[float(nd.density) for nd in g.nodes], best_k=int(g.best_k), constant=float(g.constant),
+                     mind=float(g.min_density), maxd=float(g.max_density))
+        if model == "uns":
+            s["n_clusters"] = int(g.n_clusters)
+        return s
+    used = mk()
+    fit(used, list(range(n1)))
+    fit(used, list(range(n2)))
+    fresh = mk()
+    fit(fresh, list(range(n2)))
+    a, b = state(used), state(fresh)
+    bad = ["refit-equals-fit-of-a-never-used-model:%s" % k for k in b if a[k] != b[k]]
+    return dict(obs=dict(used=a, fresh=b), violated=bad)
+
+
+HANDLERS["knn_refit"] = run_refit
+
+
 def run_cut(req):
     from opfython.models.unsupervised import UnsupervisedOPF
     cfg = req["cfg"]
